@@ -96,6 +96,32 @@ def deconv2d(c, dim, BC, PSF, noise_kind):
     _consistency(c, tp, draws, noise_kind, 0.05, x)
 
 
+def integer_typed_signal(c, which):
+    """the shipped forward models are functions of the VALUES of the signal: an integer-typed signal (label image, mask, counts) gives
+    the output of the same values stored as floats, and a problem built from an integer-typed phantom has exactData = model(phantom)
+    (bounded stand-in: native, numpy's dtype rules are not modelled)"""
+    rng = np.random.default_rng(int(c.real('seed', lo=0, hi=10 ** 6)))
+    if which == 'Deconvolution2D':
+        for BC in ('periodic', 'zero'):
+            ph = rng.integers(0, 5, size=(6, 6))
+            import warnings; warnings.filterwarnings('ignore')
+            tp = Deconvolution2D(dim=6, PSF_size=3, BC=BC, phantom=ph, noise_std=0.01)
+            tf = Deconvolution2D(dim=6, PSF_size=3, BC=BC, phantom=ph.astype(float), noise_std=0.01)
+            xi = rng.integers(-3, 4, size=36)
+            c.eq(f'{BC}:forward_of_integer_image', np.asarray(tp.model.forward(xi)), np.asarray(tp.model.forward(xi.astype(float))), tol=1e-12)
+            c.eq(f'{BC}:adjoint_of_integer_image', np.asarray(tp.model.adjoint(xi)), np.asarray(tp.model.adjoint(xi.astype(float))), tol=1e-12)
+            c.eq(f'{BC}:exact_data_of_integer_phantom', np.asarray(tp.exactData), np.asarray(tf.exactData), tol=1e-12)
+            c.eq(f'{BC}:exact_data_is_model_of_exact_solution', np.asarray(tp.exactData), np.asarray(tp.model.forward(np.asarray(tp.exactSolution, dtype=float))), tol=1e-12)
+    else:
+        mkp = {'Deconvolution1D': lambda ph: Deconvolution1D(dim=8, PSF_size=3, BC='zero', phantom=ph, noise_std=0.01), 'Abel1D': None}[which]
+        ph = rng.integers(0, 5, size=8)
+        tp = mkp(ph); tf = mkp(ph.astype(float))
+        xi = rng.integers(-3, 4, size=8)
+        c.eq('forward_of_integer_signal', np.asarray(tp.model.forward(xi)), np.asarray(tp.model.forward(xi.astype(float))), tol=1e-12)
+        c.eq('exact_data_of_integer_phantom', np.asarray(tp.exactData), np.asarray(tf.exactData), tol=1e-12)
+        c.eq('exact_data_is_model_of_exact_solution', np.asarray(tp.exactData), np.asarray(tp.model.forward(np.asarray(tp.exactSolution, dtype=float))), tol=1e-12)
+
+
 def abel(c, dim, endpoint=1.0):
     tp, draws = c.pre
     x = c.vec('x', dim)
@@ -164,6 +190,8 @@ def jobs(tier):
     J.append(Job('Abel1D:dim=5', lambda c: abel(c, 5), 'Pbox', [f'{T}:Abel1D.__init__'], pre=mk('Abel1D', dim=5), rtol=1e-7))
     for ep in ((2.0,) if q else (0.5, 2.0, 3.0)):
         J.append(Job(f'Abel1D:dim=6:endpoint={ep}', lambda c, ep=ep: abel(c, 6, ep), 'Pbox', [f'{T}:Abel1D.__init__'], pre=mk('Abel1D', dim=6, endpoint=ep), rtol=1e-7))
+    for which in ('Deconvolution2D', 'Deconvolution1D'):
+        J.append(Job(f'{which}:integer_typed_signal_and_phantom', lambda c, w=which: integer_typed_signal(c, w), 'B', [f'{T}:_proj_forward_2D', f'{T}:{which}.__init__'], nnum=2))
     J.append(Job('WangCubic', wang, 'Pbox', [f'{T}:WangCubic.__init__'], rtol=1e-6))
     J.append(Job('Poisson1D:dim=8', lambda c: pde_problem(c, 'Poisson1D', 8), 'B', [f'{T}:Poisson1D.__init__'], pre=mk('Poisson1D', dim=8), nnum=3))
     J.append(Job('Heat1D:dim=8', lambda c: pde_problem(c, 'Heat1D', 8), 'B', [f'{T}:Heat1D.__init__'], pre=mk('Heat1D', dim=8), nnum=3))
